@@ -6,7 +6,7 @@ from vlib import songgen
 ID = "C07"
 LEAN_MODULE = "Ctrmml.Properties.C07"
 THEOREMS = ["C07_multiples_of_147", "C07_tempo_closed_form", "C07_tempo_step_le_two", "C07_play_step_grid",
-            "C07_attenuation_antitone", "C07_pitch_tables_sound"]
+            "C07_attenuation_antitone", "C07_pitch_tables_sound", "C07_short_note_counterexample"]
 LEVEL = "proof"
 STREAM = "vgm.bytes"
 CHUNK = 25
@@ -308,7 +308,7 @@ def cases(rng, tier):
     for v in range(0, 128, 16 if tier == "quick" else 1):
         yield Case("mdvgm T4:17.1.0.0,20.%d.0.0,2.40.1.1 T8:20.%d.0.0,2.40.1.1 @1=fm,5,0,%s" % (
             v, v, ",".join("31,0,0,0,0,%d,0,1,0,0" % tl for tl in (20, 127, 64, 0))), ("volfine", "exh"), "exhaustive")
-    n = 150 if tier == "quick" else 2500
+    n = 600 if tier == "quick" else 12000
     made = 0
     while made < n:
         song, ins, tags = random_song(rng, tier)
